@@ -222,3 +222,46 @@ def run_direct(rng, n, fns, known_filter=None, gen_kw=None, res=None):
             samples.append({k: v for k, v in direct.desc(case).items() if k != 'X'})
     known['_skipped_rejected_at_fit'] = skipped
     return evals, bad, known, samples
+
+
+DIRECT_TESTS = {
+    'roundtrip': lambda c, r, kp: direct.c01_roundtrip(c, kp),
+    'noninterference': lambda c, r, kp: direct.c02_noninterference(c, r, kp),
+    'episodes': lambda c, r, kp: direct.c03_episodes(c, r, kp),
+    'dims': lambda c, r, kp: direct.c04_dims(c, kp),
+    'prediction': lambda c, r, kp: direct.c07_prediction(c, r, kp),
+    'helpers': lambda c, r, kp: direct.c16_helpers(c, r, kp),
+}
+
+
+def replay_direct(path, extra_tests=None):
+    """Re-runs the direct property test named in a replay file on its stored case (pipeline
+    description + data) against the implementation.  Returns 1 when the property still fails
+    (or the file only names a broken proof / correspondence), 0 when it holds."""
+    import ast
+    d = json.load(open(path))
+    print(json.dumps(d, indent=1)[:3000])
+    c = d.get('case') or {}
+    tests = dict(DIRECT_TESTS)
+    tests.update(extra_tests or {})
+    if 'chain' not in c or c.get('test') not in tests:
+        print('replay: no re-runnable direct case in this file (broken proof obligation / correspondence, or a '
+              'scripted case): see "broken" / "what"')
+        return 1
+    chain = ast.literal_eval(c['chain'])
+    X = np.array(c['X'], dtype=float)
+    case = dict(cid=0, chain=chain, ns=c['n_states'], nu=c['n_inputs'], ep=c['episode_feature'], X=X, Xfit=X,
+                mode=c.get('layout'), w=c.get('min_samples'), dims=None)
+    if c.get('fit_on_zero_inputs'):
+        Xf = np.array(X, copy=True)
+        Xf[:, (1 if case['ep'] else 0) + case['ns']:] = 0
+        case['Xfit'] = Xf
+    rng = np.random.default_rng(common.seed())
+    try:
+        kp = direct.build_real_top(chain)
+        kp.fit_transformers(case['Xfit'], n_inputs=case['nu'], episode_feature=case['ep'])
+        ok, info = tests[c['test']](case, rng, kp)
+    except Exception as e:  # noqa
+        ok, info = False, dict(what=f'implementation raised {type(e).__name__}: {e}')
+    print('replayed', c['test'], '->', 'holds' if ok else ('FAILS: ' + json.dumps(info, default=str)[:1500]))
+    return 0 if ok else 1
